@@ -1,4 +1,4 @@
-import RV.C10.Fresh
+import RV.C10.Translate
 /-
   C10 — property statements and theorems.
 
@@ -876,7 +876,7 @@ theorem base_persists : Statement_base_persists := by
     (dataset × prologue) is the plain `runRequest` -/
 def Statement_prologue_free_request : Prop :=
   ∀ (c : Cfg) (T : Tables) (ops : List Op) (r : Run) (p : Prologue),
-    (runPRequest c T (ops.map (fun op => (([], fun _ => some op) : PElem))) ⟨r, p⟩).run =
+    (runPRequest c T (ops.map (fun op => (([], fun _ => some (WOp.other op)) : PElem))) ⟨r, p⟩).run =
       ops.foldl (Run.step c) r
 
 theorem prologue_free_request : Statement_prologue_free_request := by
@@ -886,14 +886,15 @@ theorem prologue_free_request : Statement_prologue_free_request := by
   | cons op rest ih =>
     intro r p
     simp only [runPRequest, List.map_cons, List.foldl_cons] at ih ⊢
-    have : PRun.step c T ⟨r, p⟩ ([], fun _ => some op) = ⟨r.step c op, p⟩ := rfl
+    have : PRun.step c T ⟨r, p⟩ ([], fun _ => some (WOp.other op)) = ⟨r.step c op, p⟩ := by
+      simp only [PRun.step, List.foldl_nil, stepW_eq, WOp.toOp]
     rw [this, ih]
 
 /-- non-vacuity: BASE 0 before the first operation; the second operation's relative reference is resolved
     against it (reference 5 under base 0 denotes IRI 1), although nothing is declared before it -/
 example :
     let T : Tables := ⟨[((0, 5), 1)], [], []⟩
-    let ins (n : Nat) : Op := .insertData [((.const (.iri n), .const (.iri 4), .const (.iri 2)), .dflt)]
+    let ins (n : Nat) : WOp := .insertData [.triples [(.const (.iri n), .const (.iri 4), .const (.iri 2))]]
     let e1 : PElem := ([.base 0], fun _ => some (ins 3))
     let e2 : PElem := ([], fun pro => (pro.resolve T (.rel 5)).map ins)
     (runPRequest ⟨.ds, true⟩ T [e1, e2] ⟨⟨⟨[], [], 0⟩, false⟩, ⟨none, []⟩⟩).run.st.quads =
@@ -932,5 +933,81 @@ example : (evalModify plainGraph unionModify oneTriple).quads =
 example : ({ unionModify with wmode := .proj [40] }.solutions plainGraph
     ⟨[(.iri 1, .iri 4, .iri 2, none), (.iri 1, .iri 4, .iri 3, none)], [], 0⟩) =
     [[(40, .iri 1)], [(40, .iri 1)]] := by decide
+
+/-! ### `translateQuads`: the structure the evaluators walk, and the quads that were written -/
+
+/-- (i) the translated structure (triples outside GRAPH + dictionary graph term ↦ triples, later blocks of a
+    graph appended to its entry, empty blocks dropped) denotes exactly the written quads, as a MULTISET:
+    nothing lost, nothing duplicated — also when one graph (IRI or variable) is named by several GRAPH blocks -/
+def Statement_translate_loses_none : Prop :=
+  ∀ (w : Written), (translateQuads w).flat.Perm w.flat
+
+theorem translate_loses_none : Statement_translate_loses_none := translateQuads_flat_perm
+
+/-- non-vacuity: `GRAPH g { a } . d . GRAPH ?v { b } GRAPH g { c } GRAPH h { }` — `g` in two blocks (merged into
+    one dictionary entry, in first-occurrence position), a variable graph, an empty block (no entry) -/
+example :
+    let a : TTpl := (.const (.iri 1), .const (.iri 4), .const (.iri 2))
+    let b : TTpl := (.var 40, .const (.iri 4), .label 50)
+    let w : Written := [.graph (.name 90) [a], .triples [b], .graph (.var 44) [b], .graph (.name 90) [b, a],
+                        .graph (.name 91) []]
+    translateQuads w = ⟨[b], [(.name 90, [a, b, a]), (.var 44, [b])]⟩ ∧
+    (translateQuads w).flat =
+      [(b, .dflt), (a, .name 90), (b, .name 90), (a, .name 90), (b, .var 44)] ∧
+    w.flat = [(a, .name 90), (b, .dflt), (b, .var 44), (b, .name 90), (a, .name 90)] := by
+  decide
+
+/-- (ii) an operation as written, evaluated the way the code does — `evalInsertData` / `evalDeleteData` /
+    `evalModify` walking `u.triples` and then the `u.quads` dictionary entry by entry with one blank-node map —
+    (a) is exactly the flat model applied to the translated structure read in evaluator order, and
+    (b) leaves the same quads and the same supply counter as the flat model applied to the quads in WRITTEN
+    order, which is what `modify_spec`, `insert_data_spec`, `delete_data_spec` are stated about
+    (both fail together on a plain Graph). -/
+def Statement_translated_effect : Prop :=
+  ∀ (c : Cfg) (w : WOp) (s : St),
+    evalWOp c w s = evalOp c w.toOp s ∧ SameOutcome (evalWOp c w s) (evalOp c w.asWritten s)
+
+theorem translated_effect : Statement_translated_effect :=
+  fun c w s => ⟨evalWOp_eq c w s, evalWOp_same_asWritten c w s⟩
+
+/-- hence OpDeleteInsert for the operation AS WRITTEN, now through the modelled translation: `evalModifyT`
+    (templates translated, dictionary walked) leaves `Spec.OpDeleteInsert` of the written DELETE and INSERT
+    quads -/
+def Statement_modify_spec_written : Prop :=
+  ∀ (c : Cfg) (u : WModify) (s : St),
+    ∃ sk : Nat → Nat → Option Nat,
+      (∀ i l v, sk i l = some v → s.next ≤ v) ∧
+      (∀ i j l l' v, sk i l = some v → sk j l' = some v → i = j ∧ l = l') ∧
+      ∀ x, x ∈ (evalModifyT c u s).quads ↔
+        Spec.OpDeleteInsert s.quads (u.core.solutions c s) sk u.core.withG
+          ((u.del.map Written.flat).getD []) ((u.ins.map Written.flat).getD []) x
+
+theorem modify_spec_written : Statement_modify_spec_written := by
+  intro c u s
+  obtain ⟨sk, h1, h2, h3⟩ := modify_spec c u.asWritten s
+  refine ⟨sk, h1, h2, fun x => ?_⟩
+  have hsame : SameStore (evalModifyT c u s) (evalModify c u.asWritten s) := by
+    rw [evalModifyT_eq]
+    refine evalModify_same c u.toModify u.asWritten s rfl rfl ?_ ?_
+    · simp only [WModify.toModify, WModify.asWritten]
+      cases u.del <;> simp only [Option.map]
+      exact sameQuads_translate _
+    · simp only [WModify.toModify, WModify.asWritten]
+      cases u.ins <;> simp only [Option.map]
+      exact sameQuads_translate _
+  rw [hsame.1 x, h3 x]
+  rfl
+
+/-- a whole written request is the flat request of its translated operations (so `request_in_order`,
+    `store_invariants`, `minted_nodes_new` … apply to it) -/
+def Statement_written_request : Prop :=
+  ∀ (c : Cfg) (ws : List WOp) (r : Run),
+    ws.foldl (Run.stepW c) r = (ws.map WOp.toOp).foldl (Run.step c) r
+
+theorem written_request : Statement_written_request := by
+  intro c ws
+  induction ws with
+  | nil => intro r; rfl
+  | cons w rest ih => intro r; simp only [List.foldl_cons, List.map_cons, stepW_eq, ih]
 
 end RV.C10
